@@ -409,6 +409,13 @@ func c12Prelude() []c12Script {
 // the real initUsers with {auth_attempts, block_auth_min}.
 var c12InitCfg *[2]uint
 
+// c12FirstRun (round 8), with c12InitCfg: the Auth object is created the way
+// a fresh installation creates it, by the real initUsers with an EMPTY user
+// list, and the accounts are added afterwards to the SAME object through the
+// real addUser, as handleInstallConfigure does; the login history then runs
+// against that object.
+var c12FirstRun bool
+
 func c12LoginHistory(t *testing.T, out *vfOut, rnd *vfRand, users []webUser, name string, max uint, block time.Duration,
 	n int, script []c12Att) {
 	dir := t.TempDir()
@@ -436,11 +443,27 @@ func c12LoginHistory(t *testing.T, out *vfOut, rnd *vfRand, users []webUser, nam
 		}()
 		globalContext.workDir = dir
 		config.Users = append([]webUser{}, users...)
+		if c12FirstRun {
+			config.Users = nil
+		}
 		config.AuthAttempts, config.AuthBlockMin = cfg[0], cfg[1]
 		var err error
 		auth, err = initUsers()
 		if err != nil {
 			t.Fatalf("initUsers: %v", err)
+		}
+		if c12FirstRun && auth != nil {
+			// the wizard: globalContext.auth.addUser(&webUser{Name: ...}, password)
+			for _, u := range users[:2] {
+				if err = auth.addUser(&webUser{Name: u.Name}, c12Pass); err != nil {
+					t.Fatalf("addUser: %v", err)
+				}
+			}
+			// (the two accounts with unusable hashes cannot come from the wizard)
+			auth.lock.Lock()
+			auth.users = append(auth.users, users[2:]...)
+			auth.lock.Unlock()
+			out.Class("init-first-run-then-wizard")
 		}
 		if auth != nil {
 			ab = auth.rateLimiter
@@ -815,7 +838,7 @@ func c12LoginHistory(t *testing.T, out *vfOut, rnd *vfRand, users []webUser, nam
 		} else if ab != nil && (ab.maxAttempts != cfg[0] || ab.blockDur != time.Duration(cfg[1])*time.Minute) {
 			fail("init-limiter-params", fmt.Sprintf("auth_attempts: %d, block_auth_min: %d: the limiter has maxAttempts %d, blockDur %v", cfg[0], cfg[1], ab.maxAttempts, ab.blockDur))
 		}
-		c.Coq = vfApp("C12.CInitLogin", vfZ(int64(cfg[0])), vfZ(int64(cfg[1])), vfBool(ab != nil), vfZ(obsBlock), vfN(obsMax), vfZ(int64(tol)),
+		c.Coq = vfApp("C12.CInitLogin", vfBool(c12FirstRun), vfZ(int64(cfg[0])), vfZ(int64(cfg[1])), vfBool(ab != nil), vfZ(obsBlock), vfN(obsMax), vfZ(int64(tol)),
 			vfList("C12.login_step", steps))
 		c.Nontrivial = classes["login-429"] || ab == nil
 		c.MonitorOK, c.MonitorMsg, c.FindingKey = monOK, monMsg, key
@@ -1437,6 +1460,20 @@ func TestVerifC12(t *testing.T) {
 		}
 	}
 	c12InitCfg = nil
+	// round 8: the Auth object of a FRESH installation: initUsers with no
+	// users, then the wizard's addUser on the same object, then the burst
+	c12FirstRun = true
+	for _, ab := range [][2]uint{{3, 15}, {1, 1}, {2, 2}} {
+		c12InitCfg = &[2]uint{ab[0], ab[1]}
+		sc := []c12Att{}
+		for i := 0; i < int(ab[0]); i++ {
+			sc = append(sc, c12Att{now: s, addr: a})
+		}
+		sc = append(sc, c12Att{now: s, addr: a}, c12Att{now: s, addr: a, ok: true}, c12Att{now: 0, addr: c12Addrs[1], ok: true},
+			c12Att{now: int64(ab[1])*int64(time.Minute) - 12*s, addr: a, ok: true}, c12Att{now: 14 * s, addr: a, ok: true})
+		c12LoginHistory(t, out, vfNewRand(uint64(900+ab[0])), users, fmt.Sprintf("prelude/first-run-wizard-%d-%d", ab[0], ab[1]), 0, 0, len(sc), sc)
+	}
+	c12FirstRun, c12InitCfg = false, nil
 	c12SessHistory(t, out, vfNewRand(3), users, "prelude/lifecycle", 12, []string{
 		"new", "check", "http", "new", "logout:1", "check:1", "restart", "check:0", "setexp", "check", "restart", "check"})
 	// spellings: login; request and logout with the upper-case / mixed-case /
@@ -1518,8 +1555,9 @@ func TestVerifC12(t *testing.T) {
 		if i%4 == 0 {
 			// round 3: random histories on the limiter initUsers builds
 			c12InitCfg = &[2]uint{vfPick(r, []uint{0, 1, 2, 3, 5}), vfPick(r, []uint{0, 1, 1, 2, 15})}
+			c12FirstRun = i%16 == 0 // round 8: now and then on the object of a fresh installation
 			c12LoginHistory(t, out, r, users, "random-initUsers", 0, 0, 6+r.Intn(20), nil)
-			c12InitCfg = nil
+			c12InitCfg, c12FirstRun = nil, false
 		}
 	}
 	nSess := out.Scale(150, 1200)
